@@ -5,9 +5,11 @@
 package main
 
 import (
+	"bufio"
 	"fmt"
 	"os"
 	"strconv"
+	"strings"
 
 	"verif/sim/drv"
 	_ "verif/sim/props"
@@ -19,6 +21,10 @@ func main() {
 		os.Exit(2)
 	}
 	id := os.Args[1]
+	if id == "shell" {
+		shell(os.Args[2])
+		return
+	}
 	if os.Args[2] == "--replay" {
 		if len(os.Args) < 4 {
 			os.Exit(2)
@@ -44,4 +50,45 @@ func main() {
 		}
 	}
 	os.Exit(drv.RunTier(chk, tier, seed))
+}
+
+// shell: ad-hoc requests against a fresh world.  Lines: METHOD URL [BODY] | restart clean|kill | rpc args... | sleep ms
+func shell(tag string) {
+	w := drv.NewWorld("shell-"+tag, drv.Knobs{MapSeed: 1, UUIDSeed: 1, SchedSeed: 1, AllowSplit: true})
+	defer w.Close()
+	if _, err := w.Start(); err != nil {
+		fmt.Println("ERR", err)
+		return
+	}
+	sc := bufio.NewScanner(os.Stdin)
+	sc.Buffer(make([]byte, 1<<20), 1<<26)
+	for sc.Scan() {
+		line := strings.TrimSpace(sc.Text())
+		if line == "" || line[0] == '#' {
+			continue
+		}
+		f := strings.SplitN(line, " ", 3)
+		switch f[0] {
+		case "restart":
+			_, err := w.Restart(f[1])
+			fmt.Println("restart", err)
+		case "sleep":
+			n, _ := strconv.Atoi(f[1])
+			w.Sleep(int64(n))
+		case "rpc":
+			st, txt, err := w.RPC(nil, strings.Fields(line)[1:]...)
+			fmt.Println(st, txt, err)
+		default:
+			body := ""
+			if len(f) > 2 {
+				body = f[2]
+			}
+			st, b, err := w.HTTP(f[0], f[1], []byte(body))
+			if err != nil {
+				fmt.Println("ERR", err)
+				return
+			}
+			fmt.Printf("%s %s -> %d %s\n", f[0], f[1], st, string(b))
+		}
+	}
 }
